@@ -21,6 +21,7 @@ TIME_ZERO = -62135596800 * 10 ** 9
 T1 = 1767225600 * 10 ** 9            # 2026-01-01T00:00:00Z
 T2 = T1 + 3600 * 10 ** 9 + 123456789
 
+JOIN_HAS_WS = False    # set by C23.py from coordinator.handleJoinRequest's NodeInfo literal
 TYPES = {"add_node": 1, "remove_node": 2, "update_node": 3, "update_node_state": 4, "promote": 5, "demote": 6,
          "register_file": 7, "delete_file": 8, "assign_compactor": 9, "batch": 10, "update_file": 11,
          "create_token": 12, "update_token": 13, "revoke_token": 14, "delete_token": 15, "rotate_token": 16,
@@ -740,7 +741,39 @@ class Gen:
             return {"op": "update_file", "file": self.file_entry()}
         if k == "delete":
             return {"op": "delete_file", "path": r.choice(GOOD_PATHS[:3] + ["", "nope"]), "reason": r.choice(["retention", ""])}
+        if k == "batch" and r.random() < 0.6:
+            return {"op": "batch", "ops": self.near_valid_batch()}
         return {"op": "batch", "ops": [self.bop() for _ in range(r.choice([0, 1, 2, 2, 3, 4]))]}
+
+    def good_file(self):
+        r = self.r
+        path = r.choice(GOOD_PATHS[:3])
+        return mk(ZERO_FILE, path=path, db=r.choice(["db1", "db2", path.split("/")[0]]), meas="cpu", sha=r.choice(["ab12", "cd34"]),
+                  size=r.choice([10, 20]), ptime=T1, origin="a", tier="hot", created=r.choice([T1, T2]))
+
+    def near_valid_batch(self):
+        """a batch whose ops are all acceptable, with (usually) exactly one unacceptable op at a random
+        position: the all-or-nothing pre-validation is what keeps the earlier ops from landing"""
+        r = self.r
+        ops = []
+        for _ in range(r.randint(1, 4)):
+            k = r.choice(["register", "register", "update", "delete"])
+            if k == "delete":
+                ops.append({"op": "delete", "path": r.choice(GOOD_PATHS[:3]), "reason": "compaction"})
+            else:
+                ops.append({"op": k, "file": self.good_file()})
+        if r.random() < 0.7:
+            bad = r.choice([
+                {"op": "register", "file": dict(self.good_file(), created=TIME_ZERO)},
+                {"op": "update", "file": dict(self.good_file(), created=TIME_ZERO)},
+                {"op": "register", "file": dict(self.good_file(), path=r.choice(BAD_PATHS))},
+                {"op": "update", "file": dict(self.good_file(), path=r.choice(BAD_PATHS))},
+                {"op": "delete", "path": "", "reason": ""},
+                {"op": "bad", "type": TYPES["delete_file"], "raw": "{\"path\":5}"},
+                {"op": "bad", "type": TYPES["add_node"], "raw": "{}"},
+                {"op": "update", "file": dict(self.good_file(), db="")}])
+            ops.insert(r.randint(0, len(ops)), bad)
+        return ops
 
     # --- token family
     def token_cmd(self):
@@ -1089,6 +1122,8 @@ def run_property(res, pid, tier, seed, theorems, modules, extra_targets, familie
         sig = w["sig"]
         if sig not in known or GUARD_SIG_INV[sig] not in guards:
             continue
+        if w["name"] == "w_rejoin_primary" and JOIN_HAS_WS:
+            continue      # the join path now carries a writer_state: this witness is no longer what a rejoin proposes
         if wi in ofail and wi not in dis and not cfg[w["flag"]]:
             line = "%s [%s] %s" % (sig, w["name"], known[sig]["what"])
             if not any(k.startswith(sig + " ") for k in res.known):
